@@ -458,10 +458,33 @@ constexpr std::size_t ct_count = sizeof(ct_table) / sizeof(ct_table[0]);
 
 static bool dispatch(std::string const& op, Toks& in, Out& impl, Out& ref);
 
+// Crash budget: every crashing case costs a re-fork of the (sanitized) child.  A change that makes
+// thousands of cases crash would otherwise take hours; after 40 crashed cases the remaining ones are
+// answered with a distinguished token (which still disagrees with the model, so the run still fails).
+// The counters live in a shared page created before main() and inherited by every child.
+struct CrashBudget {
+    volatile unsigned long started;
+    volatile unsigned long finished;
+};
+static CrashBudget* const g_budget = [] {
+    auto* p = static_cast<CrashBudget*>(mmap(nullptr, sizeof(CrashBudget), PROT_READ | PROT_WRITE, MAP_SHARED | MAP_ANONYMOUS, -1, 0));
+    p->started  = 0;
+    p->finished = 0;
+    return p;
+}();
+
 bool vh::run_case(std::string const& op, Toks& in, Out& impl, Out& ref)
 {
     static bool const once = (std::setlocale(LC_ALL, "C"), true);
     (void)once;
+    if (g_budget->started - g_budget->finished > 40) {
+        impl.tok("skipped-after-40-crashes");
+        return true;
+    }
+    g_budget->started = g_budget->started + 1;
+    struct Done {
+        ~Done() { g_budget->finished = g_budget->finished + 1; }
+    } done;
     if (op == "ct") {
         // ct <index> <op> <args...>: impl = compile-time result of table entry <index>,
         // reference = glibc at run time on the same textual case
